@@ -270,6 +270,48 @@ theorem single_entry_view_state (e : PreConf) (b : Nat) (baseAt : Nat → Option
       else .error .notFound :=
   ⟨rfl, single_view_state e b baseAt⟩
 
+/-! ### ill-formed wire updates (a defect of juno, see notes/C20.md)
+
+Full-strength statement, false of juno: `∀ u : RawUpdate, zipRaw u ≠ .panics` — whatever the
+data source hands to `ApplyUpdate`, the single writer goroutine rejects or applies it. The adapters
+index receipts and state diffs by transaction without checking lengths / nil; only the feeder
+client validates. -/
+
+/-- `_partial`: a well-shaped update (three slices of one length, no nil element) of adaptable
+transactions is never a panic, and yields exactly its transactions. Missing: any other shape. -/
+theorem wire_update_never_panics_partial (ws : List WireTx) (hgood : ∀ w ∈ ws, w.bad = false) :
+    zipRaw (RawUpdate.ofWire ws) = .ok ws :=
+  zipRaw_wellshaped ws hgood
+
+/-- **Negation witness** (replay `applyupdate-panics-on-malformed-update`): one transaction, no
+receipt. -/
+theorem wire_update_never_panics_fails :
+    ∃ u : RawUpdate, (zipRaw u matches .panics) = true :=
+  ⟨{ txs := [({ hash := 1, tag := 1 }, false)], receipts := [], diffs := [some {}] }, by decide⟩
+
+/-! ### sequencer mode: the view over the block under construction (a defect of juno)
+
+Full-strength statement, false of juno: the entry a reader reaches through the view
+`Sequencer.PreConfirmedChain` returned is the same after the builder's next batch. -/
+
+/-- `_partial`: it holds if the view is taken over a SNAPSHOT of the build state
+(`buildState.Clone()`, the proposed fix). Missing: the code hands out the live entry. -/
+theorem sequencer_view_stable_partial (cells : List PreConf) (live : Nat) (ws : List WireTx)
+    (hl : live < cells.length) :
+    readCell (runBatchInPlace (seqViewSnapshot cells live).1 live ws) (seqViewSnapshot cells live).2 =
+      readCell cells live :=
+  snapshot_cell_stable cells live ws hl
+
+/-- **Negation witness** (replay `sequencer-view-is-the-live-build-state`): the view over the live
+entry reads another transaction list after one batch. -/
+theorem sequencer_view_stable_fails :
+    ∃ (cells : List PreConf) (live : Nat) (ws : List WireTx),
+      (readCell (runBatchInPlace cells live ws) (seqViewLive cells live)).map (·.txs.length) ≠
+      (readCell cells live).map (·.txs.length) :=
+  ⟨[{ number := 7, ident := "", txCount := 0, eventCount := 0, txs := [], receipts := [], txDiffs := [], diff := {} }],
+    0, [{ tx := { hash := 1, tag := 1 }, bad := false, rcpt := { txHash := 1, tag := 1, events := 0 }, diff := {} }],
+    by decide⟩
+
 /-! ### `ContractStorageLastUpdatedBlock` through a view (a defect of juno, see notes/C20.md)
 
 The full-strength statement — false of juno as it is — would be:
